@@ -7,9 +7,61 @@ import (
 	"go/types"
 	"reflect"
 	"strings"
+	"sync"
 
 	"golang.org/x/tools/go/types/typeutil"
 )
+
+// canon maps identifier nodes to the role name a rule gave the variable they denote ("left", "kind",
+// "needFloatPromotion" …).  Rules discover roles by type and data flow (SetRole) and may then keep
+// describing code in the vocabulary they were written in: Str, StmtStr and the explorer's fact keys
+// render a role variable by its role name whatever it is called in the source.  Keys are node pointers,
+// unique per loaded program, so concurrent analyses of different programs do not interfere.
+var canon sync.Map // *ast.Ident → string
+
+// SetRole gives every occurrence of variable o inside root the name role.
+func SetRole(info *types.Info, root ast.Node, o types.Object, role string) {
+	if o == nil || root == nil || role == "" {
+		return
+	}
+	ast.Inspect(root, func(n ast.Node) bool {
+		if id, ok := n.(*ast.Ident); ok && ObjOf(info, id) == o {
+			canon.Store(id, role)
+		}
+		return true
+	})
+}
+
+// RoleName returns the name under which id is rendered.
+func RoleName(id *ast.Ident) string {
+	if v, ok := canon.Load(id); ok {
+		return v.(string)
+	}
+	return id.Name
+}
+
+// withRoles renders with role names substituted (the identifiers are restored afterwards).
+func withRoles(n ast.Node, render func() string) string {
+	type saved struct {
+		id   *ast.Ident
+		name string
+	}
+	var undo []saved
+	ast.Inspect(n, func(m ast.Node) bool {
+		if id, ok := m.(*ast.Ident); ok {
+			if v, has := canon.Load(id); has && v.(string) != id.Name {
+				undo = append(undo, saved{id, id.Name})
+				id.Name = v.(string)
+			}
+		}
+		return true
+	})
+	out := render()
+	for _, u := range undo {
+		u.id.Name = u.name
+	}
+	return out
+}
 
 // Str renders an expression in source form (literals included, unlike types.ExprString for long ones).
 func Str(e ast.Node) string {
@@ -17,7 +69,10 @@ func Str(e ast.Node) string {
 		return "<nil>"
 	}
 	if x, ok := e.(ast.Expr); ok {
-		return types.ExprString(x)
+		if reflect.ValueOf(x).Kind() == reflect.Ptr && reflect.ValueOf(x).IsNil() {
+			return "<nil>"
+		}
+		return withRoles(x, func() string { return types.ExprString(x) })
 	}
 	return ""
 }
@@ -27,11 +82,13 @@ func StmtStr(n ast.Node) string {
 	if n == nil || (reflect.ValueOf(n).Kind() == reflect.Ptr && reflect.ValueOf(n).IsNil()) {
 		return ""
 	}
-	var sb strings.Builder
-	if err := printer.Fprint(&sb, token.NewFileSet(), n); err != nil {
-		return ""
-	}
-	return sb.String()
+	return withRoles(n, func() string {
+		var sb strings.Builder
+		if err := printer.Fprint(&sb, token.NewFileSet(), n); err != nil {
+			return ""
+		}
+		return sb.String()
+	})
 }
 
 func Unparen(e ast.Expr) ast.Expr {
